@@ -1,10 +1,11 @@
 //! unit: u07d
-//! properties: C07
+//! properties: C07 C06
 //! note: what the monitor reports as claimable for one HTLC output of a confirmed commitment (channelmonitor.rs get_htlc_balance, the decision after the pending on-chain events were scanned): every HTLC that is not yet resolved on chain is reported, with its own amount; our outbound HTLC as something we can take back at its expiry (or as awaiting confirmations once our timeout spend is in a block); an inbound HTLC whose preimage we know as ours to claim before its expiry (awaiting confirmations only once a spend that used the preimage is in a block); an inbound HTLC without preimage as the counterparty's unless it times out
 //! trusted: R15 (deep slice): get_htlc_balance from `if let Some(conf_thresh) = holder_delayed_output_pending` to the end, verbatim as a function of the values the scan above it produced; the scan of revoked-output claims (`htlc_output_claim_pending`, an iterator chain over pending events) is replaced by a parameter; R11: `panic!("Outbound HTLCs should have a source")` is unreachable!() (obligation: an HTLC we offered has a source); R16: `Some(&HTLCSource::X)` written `Some(HTLCSource::X)`
 //! assume: the relations LDK's debug_assert!s state between the results of the scan (a delayed output of ours only on our own commitment; an HTLC resolved with no spend pending only on our commitment or after the funding spend is final; no timeout event and no preimage spend of an offered HTLC on a revoked commitment; a timeout event only for an HTLC we can time out) hold: they are kept as obligations and discharged from these preconditions
 //! trusted: R15 (deep slice): get_claimable_balances: the body of the loop over the HTLCs of our current commitment while no funding spend is confirmed, verbatim as a function of one HTLC and the five running totals (the macro holder_commitment_htlcs! that yields the HTLCs is dropped); R11 for its panic!
 //! assume: the running totals plus one HTLC amount fit u64 (amounts are bounded by the channel value; the source adds unchecked)
+//! trusted: R15 (deep slice + captures): get_claimable_balances after the close: the test that tells an unrevoked counterparty commitment from a revoked one and the two flags each of the four `walk_htlcs!` invocations passes on (R8: `Some(x) == opt` on txids is opt_txid_eq)
 //! trusted: R15 (deep slices): get_htlc_balance: the guards of the HTLCUpdate and HTLCSpendConfirmation arms of the scan and the pair the latter records, verbatim
 //! trusted: R15 (deep slice): get_htlc_balance: the predicate of the `.any(..)` in the guard of the MaturingOutput arm of the scan, verbatim as a function of one input of the maturing transaction (Txid/TxIn/descriptor skeletons)
 //! trusted: env: enum Balance, BalanceSource, HolderCommitmentTransactionBalance extracted; HTLCOutputInCommitment skeleton {offered, amount_msat, cltv_expiry, payment_hash}; HTLCSource skeleton with the three variants; payment_preimages is a stub map whose get() answers from a ghost map
@@ -154,6 +155,37 @@ impl PendingEvent { #[verifier::external_body] pub fn confirmation_threshold(&se
     preimage.is_some()));
 //@with
     preimage.is_none()));
+//@end
+// ---- get_claimable_balances after the close: which commitment confirmed decides how its HTLCs are walked ----
+pub struct ClosedFunding { pub current_counterparty_commitment_txid: Option<Txid>, pub prev_counterparty_commitment_txid: Option<Txid> }
+// R8: `Some(x) == opt` on txids
+#[verifier::external_body] pub fn opt_txid_eq(a: Option<Txid>, b: Option<Txid>) -> (r: bool) ensures r == (a == b) { unimplemented!() }
+//@extract lightning/src/chain/channelmonitor.rs :: impl ChannelMonitor :: fn get_claimable_balances
+//@capture R15 nth=1
+    walk_htlcs!($h1:tt, $r1:tt, counterparty_tx_htlcs.iter()
+//@capture R15 nth=2
+    walk_htlcs!($h2:tt, $r2:tt, counterparty_tx_htlcs.iter()
+//@capture R15
+    walk_htlcs!($h3:tt, $r3:tt, holder_commitment_htlcs!(us, CURRENT_WITH_SOURCES));
+//@capture R15
+    walk_htlcs!($h4:tt, $r4:tt, holder_commitment_htlcs!(us, PREV_WITH_SOURCES).unwrap());
+//@slice R15
+    if $c:cond { walk_htlcs!(false, false, counterparty_tx_htlcs.iter()
+//@with
+    fn how_the_confirmed_commitments_htlcs_are_walked(txid: Txid, funding_spent: &ClosedFunding) -> (bool, (bool, bool), (bool, bool), (bool, bool), (bool, bool)) { ($c, ($h1, $r1), ($h2, $r2), ($h3, $r3), ($h4, $r4)) }
+//@rw * R8
+    Some(txid) == funding_spent.$f:ident
+//@with
+    opt_txid_eq(Some(txid), funding_spent.$f)
+//@ret r
+//@ensures P C07,C06 the-htlcs-of-a-confirmed-counterparty-commitment-are-reported-as-revoked-outputs-exactly-when-it-is-neither-the-current-nor-the-previous-unrevoked-one-and-ours-are-walked-as-ours
+    r.0 == (funding_spent.current_counterparty_commitment_txid == Some(txid) || funding_spent.prev_counterparty_commitment_txid == Some(txid)),
+    // (holder_commitment, counterparty_revoked_commitment) handed to get_htlc_balance: unrevoked counterparty, revoked counterparty, our current, our previous
+    r.1 == (false, false), r.2 == (false, true), r.3 == (true, false), r.4 == (true, false),
+//@mutant previous_unrevoked_counterparty_commitment_walked_as_revoked
+    if Some(txid) == funding_spent.current_counterparty_commitment_txid || Some(txid) == funding_spent.prev_counterparty_commitment_txid {
+//@with
+    if Some(txid) == funding_spent.current_counterparty_commitment_txid {
 //@end
 // ---- get_claimable_balances while the channel is open: every HTLC of our current commitment is accounted for exactly once ----
 pub open spec fn rounded(htlc: &HTLCOutputInCommitment) -> u64 { if htlc.transaction_output_index is None { htlc.amount_msat } else { (htlc.amount_msat % 1000) as u64 } }
